@@ -118,61 +118,74 @@ Proof.
     intros v Hv. destruct (Z.eq_dec v k); [subst; congruence|]. apply N. lia.
 Qed.
 
-(* block_sum = the sum of the channel over the areaX x areaY block, and every pixel of the block exists *)
+(* total of one channel over the areaX x areaY block whose top-left pixel is (sx, sy) *)
+Definition block_total (src : fb) (ax ay sh mx sx sy : Z) : Z :=
+  sumZ (Z.to_nat ax) 0 (fun w => sumZ (Z.to_nat ay) 0 (fun v =>
+    Z.land (Z.shiftr (px_or0 src (sx + w) (sy + v)) sh) mx)).
+
+(* block_sum = the sum of the channel over the block, and every pixel of the block exists *)
 Lemma block_sum_spec : forall src g sh mx x y s,
   block_sum src g sh mx x y = Some s ->
-  s = sumZ (Z.to_nat (gax g)) 0 (fun w => sumZ (Z.to_nat (gay g)) 0 (fun v =>
-        Z.land (Z.shiftr (px_or0 src (gsx0 g + x * gax g + w) (gsy0 g + y * gay g + v)) sh) mx)) /\
-  forall w v, 0 <= w < gax g -> 0 <= v < gay g ->
-    fb_get src (gsx0 g + x * gax g + w) (gsy0 g + y * gay g + v) <> None.
+  exists sx sy, zidx (gsxs g) x = Some sx /\ zidx (gsys g) y = Some sy /\
+    s = block_total src (gax g) (gay g) sh mx sx sy /\
+    forall w v, 0 <= w < gax g -> 0 <= v < gay g -> fb_get src (sx + w) (sy + v) <> None.
 Proof.
   intros src g sh mx x y s H. unfold block_sum in H.
+  destruct (zidx (gsxs g) x) as [sx|]; [|discriminate].
+  destruct (zidx (gsys g) y) as [sy|]; [|discriminate].
+  exists sx, sy. split; [reflexivity|]. split; [reflexivity|].
   assert (G : forall n k acc r,
     iter_n n k (fun w acc0 => iter_n (Z.to_nat (gay g)) 0 (fun v acc2 =>
-        match fb_get src (gsx0 g + x * gax g + w) (gsy0 g + y * gay g + v) with
+        match fb_get src (sx + w) (sy + v) with
         | None => None | Some p => Some (acc2 + Z.land (Z.shiftr p sh) mx) end) acc0) acc = Some r ->
     r = acc + sumZ n k (fun w => sumZ (Z.to_nat (gay g)) 0 (fun v =>
-          Z.land (Z.shiftr (px_or0 src (gsx0 g + x * gax g + w) (gsy0 g + y * gay g + v)) sh) mx)) /\
-    forall w v, k <= w < k + Z.of_nat n -> 0 <= v < gay g ->
-      fb_get src (gsx0 g + x * gax g + w) (gsy0 g + y * gay g + v) <> None).
+          Z.land (Z.shiftr (px_or0 src (sx + w) (sy + v)) sh) mx)) /\
+    forall w v, k <= w < k + Z.of_nat n -> 0 <= v < gay g -> fb_get src (sx + w) (sy + v) <> None).
   { induction n as [|n IH]; intros k acc r Hn; cbn [iter_n sumZ] in *.
     - inversion Hn; subst. split; [lia|]. intros; lia.
     - match type of Hn with (match ?A with Some _ => _ | None => None end) = _ => destruct A as [a1|] eqn:E1; [|discriminate] end.
-      destruct (iter_sum_spec (fun v => fb_get src (gsx0 g + x * gax g + k) (gsy0 g + y * gay g + v))
+      destruct (iter_sum_spec (fun v => fb_get src (sx + k) (sy + v))
                               (fun p => Z.land (Z.shiftr p sh) mx) _ _ _ _ E1) as [R1 N1].
       destruct (IH _ _ _ Hn) as [R2 N2]. split.
       + rewrite R2, R1. unfold px_or0. lia.
       + intros w v Hw Hv. destruct (Z.eq_dec w k).
         * subst. apply N1. lia.
         * apply N2; lia. }
-  destruct (G _ _ _ _ H) as [R N]. split; [rewrite R; lia|].
+  destruct (G _ _ _ _ H) as [R N]. split; [unfold block_total; rewrite R; lia|].
   intros w v Hw Hv. apply N; lia.
 Qed.
 
-Definition avg_px (fmt : pixfmt) (src : fb) (g : geom) (x y : Z) : Z :=
-  let area2 := gax g * gay g in
-  let tot sh mx := sumZ (Z.to_nat (gax g)) 0 (fun w => sumZ (Z.to_nat (gay g)) 0 (fun v =>
-        Z.land (Z.shiftr (px_or0 src (gsx0 g + x * gax g + w) (gsy0 g + y * gay g + v)) sh) mx)) in
+(* the packed per-channel floor average of the block at (sx, sy) *)
+Definition avg_at (fmt : pixfmt) (src : fb) (ax ay sx sy : Z) : Z :=
+  let area2 := ax * ay in
   pixmod fmt
-    (Z.lor (Z.lor (Z.shiftl (Z.land (tot (rshift fmt) (rmax fmt) / area2) (rmax fmt)) (rshift fmt))
-                  (Z.shiftl (Z.land (tot (gshift fmt) (gmax fmt) / area2) (gmax fmt)) (gshift fmt)))
-           (Z.shiftl (Z.land (tot (bshift fmt) (bmax fmt) / area2) (bmax fmt)) (bshift fmt))).
+    (Z.lor (Z.lor (Z.shiftl (Z.land (block_total src ax ay (rshift fmt) (rmax fmt) sx sy / area2) (rmax fmt)) (rshift fmt))
+                  (Z.shiftl (Z.land (block_total src ax ay (gshift fmt) (gmax fmt) sx sy / area2) (gmax fmt)) (gshift fmt)))
+           (Z.shiftl (Z.land (block_total src ax ay (bshift fmt) (bmax fmt) sx sy / area2) (bmax fmt)) (bshift fmt))).
+
+Definition idx_or0 (l : list Z) (k : Z) : Z := match zidx l k with Some v => v | None => 0 end.
+
+Definition avg_px (fmt : pixfmt) (src : fb) (g : geom) (x y : Z) : Z :=
+  avg_at fmt src (gax g) (gay g) (idx_or0 (gsxs g) x) (idx_or0 (gsys g) y).
 
 Lemma filter_px_spec : forall fmt src g x y v,
   filter_px fmt src g x y = Some v ->
   0 < gax g * gay g /\ v = avg_px fmt src g x y /\
-  forall w u, 0 <= w < gax g -> 0 <= u < gay g ->
-    fb_get src (gsx0 g + x * gax g + w) (gsy0 g + y * gay g + u) <> None.
+  exists sx sy, zidx (gsxs g) x = Some sx /\ zidx (gsys g) y = Some sy /\
+    forall w u, 0 <= w < gax g -> 0 <= u < gay g -> fb_get src (sx + w) (sy + u) <> None.
 Proof.
   intros fmt src g x y v H. unfold filter_px in H.
   destruct (Z.leb_spec (gax g * gay g) 0); [discriminate|].
   destruct (block_sum src g (rshift fmt) (rmax fmt) x y) as [r|] eqn:Er; [|discriminate].
   destruct (block_sum src g (gshift fmt) (gmax fmt) x y) as [gr|] eqn:Eg; [|discriminate].
   destruct (block_sum src g (bshift fmt) (bmax fmt) x y) as [b|] eqn:Eb; [|discriminate].
-  destruct (block_sum_spec _ _ _ _ _ _ _ Er) as [Rr Nr].
-  destruct (block_sum_spec _ _ _ _ _ _ _ Eg) as [Rg _].
-  destruct (block_sum_spec _ _ _ _ _ _ _ Eb) as [Rb _].
-  inversion H; subst. split; [lia|]. split; [reflexivity|exact Nr].
+  destruct (block_sum_spec _ _ _ _ _ _ _ Er) as (sx & sy & X1 & Y1 & Rr & Nr).
+  destruct (block_sum_spec _ _ _ _ _ _ _ Eg) as (sx2 & sy2 & X2 & Y2 & Rg & _).
+  destruct (block_sum_spec _ _ _ _ _ _ _ Eb) as (sx3 & sy3 & X3 & Y3 & Rb & _).
+  rewrite X1 in X2, X3. rewrite Y1 in Y2, Y3. inversion X2; inversion X3; inversion Y2; inversion Y3; subst.
+  inversion H; subst. split; [lia|]. split.
+  - unfold avg_px, avg_at, idx_or0. rewrite X1, Y1. reflexivity.
+  - exists sx3, sy3. auto.
 Qed.
 
 (* a successful paint evaluated its loop body at every offset *)
@@ -216,11 +229,12 @@ Theorem update_rect_spec : forall tc fmt g src dst dst',
     | Some p =>
       Some (if in_box (gx1 g) (gy1 g) (gw1 g) (gh1 g) X Y
             then if tc then avg_px fmt src g (X - gx1 g) (Y - gy1 g)
-                 else px_or0 src (X * gax g) (Y * gay g)
+                 else px_or0 src (idx_or0 (gcxs g) (X - gx1 g)) (idx_or0 (gcys g) (Y - gy1 g))
             else p)
     end) /\
-  (tc = true -> forall i j w u, 0 <= i < gw1 g -> 0 <= j < gh1 g -> 0 <= w < gax g -> 0 <= u < gay g ->
-     fb_get src (gsx0 g + i * gax g + w) (gsy0 g + j * gay g + u) <> None).
+  (tc = true -> forall i j, 0 <= i < gw1 g -> 0 <= j < gh1 g ->
+     exists sx sy, zidx (gsxs g) i = Some sx /\ zidx (gsys g) j = Some sy /\
+       forall w u, 0 <= w < gax g -> 0 <= u < gay g -> fb_get src (sx + w) (sy + u) <> None).
 Proof.
   intros tc fmt g src dst dst' Hw Hh H. unfold update_rect in H.
   destruct ((gx1 g + gw1 g >? fw dst) || (gy1 g + gh1 g >? fh dst)); [discriminate|].
@@ -235,19 +249,22 @@ Proof.
       unfold pv. specialize (Ok (X - gx1 g) (Y - gy1 g) ltac:(lia) ltac:(lia)). cbv beta in Ok.
       destruct (filter_px fmt src g (X - gx1 g) (Y - gy1 g)) as [v|] eqn:F; [|exfalso; apply Ok; rewrite ?F; reflexivity].
       destruct (filter_px_spec _ _ _ _ _ _ F) as (_ & V & _). exact V.
-    + intros _ i j w u Hi Hj Hw' Hu. specialize (Ok i j Hi Hj). cbv beta in Ok.
+    + intros _ i j Hi Hj. specialize (Ok i j Hi Hj). cbv beta in Ok.
       destruct (filter_px fmt src g i j) as [v|] eqn:F; [|exfalso; apply Ok; rewrite ?F; reflexivity].
-      destruct (filter_px_spec _ _ _ _ _ _ F) as (_ & _ & N). apply N; auto.
+      destruct (filter_px_spec _ _ _ _ _ _ F) as (_ & _ & N). exact N.
   - destruct (paint_get _ _ _ _ _ _ _ Hw Hh H) as [Sh G].
-    pose proof (paint_ok_inv (fun i j => match fb_get src ((gx1 g + i) * gax g) ((gy1 g + j) * gay g) with
-                                         | None => None | Some p => Some (Some p) end) _ _ _ _ _ _ H) as Ok.
+    pose proof (paint_ok_inv (fun i j => match zidx (gcxs g) i, zidx (gcys g) j with
+                                         | Some cx, Some cy => match fb_get src cx cy with
+                                                               | None => None | Some p => Some (Some p) end
+                                         | _, _ => None end) _ _ _ _ _ _ H) as Ok.
     split; [exact Sh|]. split; [|intros; discriminate].
     intros X Y. rewrite G. destruct (fb_get dst X Y) as [p|] eqn:Gp; [|reflexivity]. f_equal.
     destruct (in_box (gx1 g) (gy1 g) (gw1 g) (gh1 g) X Y) eqn:B; [|reflexivity].
     unfold in_box in B. rewrite !andb_true_iff, !Z.leb_le, !Z.ltb_lt in B.
-    unfold pv, px_or0. specialize (Ok (X - gx1 g) (Y - gy1 g) ltac:(lia) ltac:(lia)). cbv beta in Ok.
-    replace (gx1 g + (X - gx1 g)) with X in * by lia. replace (gy1 g + (Y - gy1 g)) with Y in * by lia.
-    destruct (fb_get src (X * gax g) (Y * gay g)) eqn:F2; [reflexivity|exfalso; apply Ok; rewrite ?F2; reflexivity].
+    unfold pv, px_or0, idx_or0. specialize (Ok (X - gx1 g) (Y - gy1 g) ltac:(lia) ltac:(lia)). cbv beta in Ok.
+    destruct (zidx (gcxs g) (X - gx1 g)) as [cx|]; [|exfalso; apply Ok; reflexivity].
+    destruct (zidx (gcys g) (Y - gy1 g)) as [cy|]; [|exfalso; apply Ok; reflexivity].
+    destruct (fb_get src cx cy) eqn:F2; [reflexivity|exfalso; apply Ok; reflexivity].
 Qed.
 
 (* ------------------------------------------------------------------ reference counts *)
@@ -573,7 +590,7 @@ Proof. intros. unfold scaled_size. cbn. rewrite !Z.quot_1_r. reflexivity. Qed.
 Lemma zero_dim_refuted :
   exists W H n w h st st',
     1 <= n <= 255 /\ scaled_size W H n = Some (w, h) /\ w = 0 /\ 1 <= h /\
-    scaling_setup false true (mkfmt 4 255 255 255 0 8 16) (mkgeom 0 0 0 0 0 0 0 0) (client_new st) 0 w h = Some st' /\
+    scaling_setup false true (mkfmt 4 255 255 255 0 8 16) (mkgeom 0 0 0 0 0 0 [] [] [] []) (client_new st) 0 w h = Some st' /\
     (exists cl, nth_error (clients st') 0 = Some cl /\ ckw cl = 0 /\ ckh cl = h) /\
     split_rect_count zlib_max_rect_size w h = None /\ split_rect_count ultra_max_rect_size w h = None.
 Proof.
@@ -616,6 +633,185 @@ Proof.
 Qed.
 
 Example update_rect_nonvacuous :
-  exists dst', update_rect true (mkfmt 1 7 7 3 0 3 6) (mkgeom 0 0 1 1 0 0 2 2)
+  exists dst', update_rect true (mkfmt 1 7 7 3 0 3 6) (mkgeom 0 0 1 1 2 2 [0] [0] [0] [0])
                  (mkfb 2 2 [[1; 3]; [5; 7]]) (blank_fb 1 1) = Some dst' /\ fb_get dst' 0 0 = Some 4.
 Proof. eexists. split; vm_compute; reflexivity. Qed.
+
+(* ------------------------------------------------------------------ convergence (repaired block grid) *)
+(* With notes/fix_C17_2.diff the block of destination pixel X starts at ScaleX(X) whatever rectangle
+   is being refreshed.  Then the scaled image is a function of the framebuffer alone. *)
+Definition ideal_px (fmt : pixfmt) (src : fb) (W H w' h' X Y : Z) : Z :=
+  avg_at fmt src (scaleQ w' W 1) (scaleQ h' H 1) (scaleQ w' W X) (scaleQ h' H Y).
+
+Definition Conv (fmt : pixfmt) (src : fb) (W H w' h' : Z) (dst : fb) : Prop :=
+  forall X Y, 0 <= X < w' -> 0 <= Y < h' -> fb_get dst X Y = Some (ideal_px fmt src W H w' h' X Y).
+
+(* geometry of a refresh after the rectangle (x,y,w,h) was modified: inside the scaled screen, covering
+   the exact image of the rectangle (C17_correction_inside / _covers), origins on the repaired grid *)
+Definition geom_ok (g : geom) (W H w' h' x y w h : Z) : Prop :=
+  gax g = scaleQ w' W 1 /\ gay g = scaleQ h' H 1 /\
+  0 <= gx1 g /\ 0 <= gw1 g /\ gx1 g + gw1 g <= w' /\ 0 <= gy1 g /\ 0 <= gh1 g /\ gy1 g + gh1 g <= h' /\
+  gx1 g * W <= x * w' /\ (x + w) * w' <= (gx1 g + gw1 g) * W /\
+  gy1 g * H <= y * h' /\ (y + h) * h' <= (gy1 g + gh1 g) * H /\
+  (forall i, 0 <= i < gw1 g -> zidx (gsxs g) i = Some (scaleQ w' W (gx1 g + i))) /\
+  (forall j, 0 <= j < gh1 g -> zidx (gsys g) j = Some (scaleQ h' H (gy1 g + j))).
+
+(* a destination pixel outside the corrected range: no pixel of its block lies in the modified range *)
+Lemma axis_disjoint : forall W w' x w x2 w2 X u,
+  1 <= w' -> 0 <= W -> 0 <= X ->
+  x2 * W <= x * w' -> (x + w) * w' <= (x2 + w2) * W ->
+  ~ (x2 <= X < x2 + w2) -> 0 <= u < scaleQ w' W 1 ->
+  ~ (x <= scaleQ w' W X + u < x + w).
+Proof.
+  intros W w' x w x2 w2 X u Hw HW HX L R Out Hu. unfold scaleQ in *.
+  pose proof (Z.div_mod (X * W) w' ltac:(lia)) as D1.
+  pose proof (Z.mod_pos_bound (X * W) w' ltac:(lia)) as M1.
+  pose proof (Z.div_mod (1 * W) w' ltac:(lia)) as D2.
+  pose proof (Z.mod_pos_bound (1 * W) w' ltac:(lia)) as M2.
+  set (b := X * W / w') in *. set (a := 1 * W / w') in *.
+  intros [A B].
+  destruct (Z_lt_le_dec X x2) as [Lt|Ge].
+  - (* left of the range *)
+    assert ((b + a) * w' <= (X + 1) * W) by nia.
+    assert ((X + 1) * W <= x2 * W) by nia.
+    assert ((b + u + 1) * w' <= x * w') by nia.
+    assert (b + u + 1 <= x) by nia. lia.
+  - assert (x2 + w2 <= X) by lia.
+    assert ((x2 + w2) * W <= X * W) by nia.
+    assert ((x + w) * w' < (b + 1) * w') by nia.
+    assert (x + w < b + 1) by nia. lia.
+Qed.
+
+Lemma sumZ_ext : forall n k f g, (forall t, k <= t < k + Z.of_nat n -> f t = g t) -> sumZ n k f = sumZ n k g.
+Proof.
+  induction n as [|n IH]; intros k f g H; cbn [sumZ]; [reflexivity|].
+  rewrite (H k) by lia. f_equal. apply IH. intros; apply H; lia.
+Qed.
+
+Lemma block_total_ext : forall src src' ax ay sh mx sx sy,
+  (forall w v, 0 <= w < ax -> 0 <= v < ay -> fb_get src' (sx + w) (sy + v) = fb_get src (sx + w) (sy + v)) ->
+  block_total src' ax ay sh mx sx sy = block_total src ax ay sh mx sx sy.
+Proof.
+  intros src src' ax ay sh mx sx sy E. unfold block_total. apply sumZ_ext. intros w Hw.
+  apply sumZ_ext. intros v Hv. unfold px_or0. rewrite E by lia. reflexivity.
+Qed.
+
+(* C17_converges, step: refresh after a modification keeps "scaled image = box filter of the framebuffer" *)
+Theorem converges_step : forall fmt g src src' dst dst' W H w' h' x y w h,
+  1 <= w' -> 0 <= W -> 1 <= h' -> 0 <= H ->
+  geom_ok g W H w' h' x y w h ->
+  Conv fmt src W H w' h' dst ->
+  (forall s t, ~ (x <= s < x + w /\ y <= t < y + h) -> fb_get src' s t = fb_get src s t) ->
+  update_rect true fmt g src' dst = Some dst' ->
+  Conv fmt src' W H w' h' dst'.
+Proof.
+  intros fmt g src src' dst dst' W H w' h' x y w h Hw HW Hh HH
+         (Ax & Ay & X0 & W0 & X1 & Y0 & H0 & Y1 & Lx & Rx & Ly & Ry & Ox & Oy) C Same U.
+  destruct (update_rect_spec _ _ _ _ _ _ W0 H0 U) as (_ & G & _).
+  intros X Y HX HY. rewrite G, (C X Y HX HY). f_equal.
+  destruct (in_box (gx1 g) (gy1 g) (gw1 g) (gh1 g) X Y) eqn:B.
+  - unfold in_box in B. rewrite !andb_true_iff, !Z.leb_le, !Z.ltb_lt in B.
+    unfold avg_px, ideal_px, idx_or0. rewrite (Ox (X - gx1 g)) by lia. rewrite (Oy (Y - gy1 g)) by lia.
+    rewrite Ax, Ay. replace (gx1 g + (X - gx1 g)) with X by lia. replace (gy1 g + (Y - gy1 g)) with Y by lia.
+    reflexivity.
+  - unfold ideal_px, avg_at.
+    assert (E : forall sh mx, block_total src' (scaleQ w' W 1) (scaleQ h' H 1) sh mx (scaleQ w' W X) (scaleQ h' H Y) =
+                              block_total src (scaleQ w' W 1) (scaleQ h' H 1) sh mx (scaleQ w' W X) (scaleQ h' H Y)).
+    { intros sh mx. apply block_total_ext. intros u v Hu Hv. apply Same. intros [Sx Sy].
+      unfold in_box in B.
+      assert (Out : ~ (gx1 g <= X < gx1 g + gw1 g) \/ ~ (gy1 g <= Y < gy1 g + gh1 g)).
+      { destruct (Z_le_dec (gx1 g) X); destruct (Z_lt_dec X (gx1 g + gw1 g));
+          destruct (Z_le_dec (gy1 g) Y); destruct (Z_lt_dec Y (gy1 g + gh1 g)); try (left; lia); try (right; lia);
+          exfalso; revert B; rewrite !andb_false_iff, !Z.leb_gt, !Z.ltb_ge; lia. }
+      destruct Out as [Out|Out].
+      - apply (axis_disjoint W w' x w (gx1 g) (gw1 g) X u); auto; lia.
+      - apply (axis_disjoint H h' y h (gy1 g) (gh1 g) Y v); auto; lia. }
+    rewrite !E. reflexivity.
+Qed.
+
+(* record of F17b - the block grid of the code as it is: the same framebuffer gives two different
+   scaled images, depending on whether it was refreshed as a whole or after the modification *)
+Lemma old_grid_history_dependent :
+  exists fmt src src' gfull gpart A B0 B,
+    (forall s t, ~ (0 <= s < 3 /\ 9 <= t < 10) -> fb_get src' s t = fb_get src s t) /\
+    update_rect true fmt gfull src' (blank_fb 1 3) = Some A /\
+    update_rect true fmt gfull src (blank_fb 1 3) = Some B0 /\
+    update_rect true fmt gpart src' B0 = Some B /\ A <> B.
+Proof.
+  exists (mkfmt 1 7 7 3 0 3 6), (blank_fb 3 11),
+         (mkfb 3 11 (repeat [0; 0; 0] 9 ++ [[255; 255; 255]; [0; 0; 0]])),
+         (mkgeom 0 0 1 3 3 3 [0] [0; 3; 6] [0] [0; 3; 6]),     (* full refresh: blocks at Y*areaY *)
+         (mkgeom 0 2 1 1 3 3 [0] [7] [0] [6]).                  (* row 9 modified: y1 = 2, y0 = ScaleY(2) = 7 *)
+  do 3 eexists. split; [|split; [vm_compute; reflexivity|split; [vm_compute; reflexivity|split; [vm_compute; reflexivity|]]]].
+  - intros s t Hn. unfold fb_get, zidx; cbn [rows].
+    destruct (t <? 0) eqn:Et; [reflexivity|].
+    assert (Ht : t < 9 \/ t = 9 \/ t = 10 \/ 10 < t) by lia.
+    destruct Ht as [Ht|[Ht|[Ht|Ht]]].
+    + assert (Z.to_nat t < 9)%nat by lia.
+      replace (nth_error (repeat [0; 0; 0] 9 ++ [[255; 255; 255]; [0; 0; 0]]) (Z.to_nat t)) with (Some [0; 0; 0]).
+      2:{ symmetry. rewrite nth_error_app1 by (rewrite repeat_length; lia). apply nth_error_repeat. lia. }
+      replace (nth_error (rows (blank_fb 3 11)) (Z.to_nat t)) with (Some [0; 0; 0]).
+      2:{ symmetry. unfold blank_fb; cbn [rows]. apply nth_error_repeat. lia. }
+      reflexivity.
+    + subst t. cbn. destruct (s <? 0) eqn:Es; [reflexivity|].
+      assert (3 <= s) by lia. assert (3 <= Z.to_nat s)%nat by lia.
+      destruct (Z.to_nat s) as [|[|[|n]]]; try lia. cbn. destruct n; reflexivity.
+    + subst t. reflexivity.
+    + assert (11 <= Z.to_nat t)%nat by lia.
+      replace (nth_error (repeat [0; 0; 0] 9 ++ [[255; 255; 255]; [0; 0; 0]]) (Z.to_nat t)) with (@None (list Z)).
+      2:{ symmetry. apply nth_error_None. rewrite app_length, repeat_length. cbn. lia. }
+      replace (nth_error (rows (blank_fb 3 11)) (Z.to_nat t)) with (@None (list Z)).
+      2:{ symmetry. apply nth_error_None. unfold blank_fb; cbn [rows]. rewrite repeat_length. lia. }
+      reflexivity.
+  - vm_compute. discriminate.
+Qed.
+
+(* ------------------------------------------------------------------ ScaleX exact for all 16-bit sizes *)
+(* The argument for ScaleX = (int)(((double) x * to) / from) over the standard model of binary64,
+   stated over Z.  a = x*to < 2^32 and b = from < 2^16 are integers, so a and b are doubles and the
+   product is exact.  The quotient computed is q = RN(a/b), a rational n/d (d > 0).  Of the standard
+   model only two facts are used, as Section hypotheses:
+     RN_mono_int : rounding is monotone and integers below 2^53 are doubles, hence k <= a/b -> k <= q;
+     RN_rel_up   : q <= (a/b) * (1 + 2^-53)                                    (relative error of RN).
+   Then (int) q = floor(a/b).  (That primitive floats satisfy the standard model is what Flocq's
+   PrimFloat bridge proves; the link is not formalised here - C17_F_agrees_Q_on checks the primitive
+   floats themselves on its swept range, the correspondence run on sizes up to 65535.) *)
+Section ScaleExact.
+  Variables a b n d : Z.
+  Hypothesis Ha : 0 <= a < 2 ^ 32.
+  Hypothesis Hb : 1 <= b < 2 ^ 16.
+  Hypothesis Hd : 0 < d.
+  Hypothesis RN_mono_int : forall k, 0 <= k -> k * b <= a -> k * d <= n.
+  Hypothesis RN_rel_up : n * b * 2 ^ 53 <= a * d * (2 ^ 53 + 1).
+
+  Theorem trunc_rounded_quotient : n / d = a / b.
+  Proof.
+    pose proof (Z.div_mod a b ltac:(lia)) as Dab. pose proof (Z.mod_pos_bound a b ltac:(lia)) as Mab.
+    set (k := a / b) in *.
+    assert (K0 : 0 <= k) by (apply Z.div_pos; lia).
+    assert (Klo : k * d <= n) by (apply RN_mono_int; [exact K0|nia]).
+    (* a <= (k+1)*b - 1 *)
+    assert (Aup : a + 1 <= (k + 1) * b) by nia.
+    assert (K32 : k + 1 <= 2 ^ 32).
+    { assert (k * b <= a) by nia. assert (k <= a) by nia. lia. }
+    (* n * b * 2^53 <= a*d*(2^53+1) <= ((k+1)*b - 1)*d*(2^53+1) < (k+1)*b*d*2^53 *)
+    assert (Kup : n < (k + 1) * d).
+    { assert (H1 : a * d * (2 ^ 53 + 1) <= ((k + 1) * b - 1) * d * (2 ^ 53 + 1)).
+      { apply Z.mul_le_mono_nonneg_r; [lia|]. apply Z.mul_le_mono_nonneg_r; lia. }
+      assert (H2 : ((k + 1) * b - 1) * d * (2 ^ 53 + 1) < (k + 1) * b * d * 2 ^ 53).
+      { (* (k+1)*b*d < d*(2^53+1)  since (k+1)*b <= 2^48 *)
+        assert ((k + 1) * b <= 2 ^ 32 * 2 ^ 16) by (apply Z.mul_le_mono_nonneg; lia).
+        assert ((k + 1) * b < 2 ^ 53 + 1) by (change (2 ^ 32 * 2 ^ 16) with (2 ^ 48) in *; lia).
+        assert ((k + 1) * b * d < (2 ^ 53 + 1) * d) by (apply Z.mul_lt_mono_pos_r; lia).
+        nia. }
+      assert (H3 : n * b * 2 ^ 53 < (k + 1) * b * d * 2 ^ 53) by lia.
+      assert (H4 : n * (b * 2 ^ 53) < (k + 1) * d * (b * 2 ^ 53)) by nia.
+      apply Z.mul_lt_mono_pos_r in H4; [exact H4|]. apply Z.mul_pos_pos; lia. }
+    symmetry. apply (Z.div_unique_pos n d k (n - k * d)); lia.
+  Qed.
+End ScaleExact.
+
+Example trunc_rounded_quotient_nonvacuous : 58 / 1 = (29 * 200) / 100.
+Proof.
+  apply (trunc_rounded_quotient (29 * 200) 100 58 1); try lia; intros k Hk H; lia.
+Qed.
